@@ -125,9 +125,12 @@ class Case:
         self.vars = []      # (lb, ub, int, cls)
         self.ops = []       # token lists (strings), without leading 'op'
         self.kinds = []
+        self.opts = []      # (name, 0|1) converter options set before the variables
 
     def lines(self):
         L = ['case %s' % self.cid]
+        for nm, v in self.opts:
+            L.append('opt %s %d' % (nm, v))
         for lb, ub, ii, _ in self.vars:
             L.append('var %s %s %d' % (tok(lb), tok(ub), 1 if ii else 0))
         for o in self.ops:
@@ -147,6 +150,9 @@ def gen_case(r, cid, focus=None):
     """one case: 2..6 original variables, 1..7 operations; arguments are original variables or `$k` results.
     Tracks a conservative mantissa-size estimate so that every double operation of the real code is exact."""
     c = Case(cid)
+    for nm in ('eqresult', 'eqbinary', 'unnest'):
+        if r.chance(1, 6):
+            c.opts.append((nm, 0))
     nv = r.rint(2, 6)
     bits = []
     for _ in range(nv):
@@ -159,8 +165,16 @@ def gen_case(r, cid, focus=None):
     log_touched = set()
     nops = r.rint(1, 7)
     kinds_all = ['lin', 'lin', 'quad', 'quad', 'pow', 'pow', 'pow', 'min', 'max', 'abs', 'abs', 'div', 'div', 'ifthen', 'clin', 'clin',
-                 'clin', 'cquad', 'and', 'or', 'not', 'impl', 'alldiff', 'count', 'nvar', 'nconst', 'tr', 'expa', 'loga', 'powf']
+                 'clin', 'cquad', 'and', 'or', 'not', 'impl', 'alldiff', 'count', 'nvar', 'nconst', 'tr', 'expa', 'loga', 'powf', 'eqbin']
     for k in range(nops):
+        if c.ops and r.chance(1, 10):
+            # the same constraint again: the converter must find it through its map and return the same result variable
+            j = r.below(len(c.ops))
+            c.ops.append(list(c.ops[j]))
+            c.kinds.append(c.ops[j][0])
+            old = refs[nv + j]
+            refs.append(('$%d' % (len(c.ops) - 1), old[1], old[2], None))
+            continue
         kind = focus if (focus and r.chance(2, 3)) else r.choice(kinds_all)
         small = [x for x in refs if x[1] <= 14]
         logical = [x for x in refs if x[2]]
@@ -296,6 +310,16 @@ def gen_case(r, cid, focus=None):
             ck = r.choice([-2, -1, 0, 0, 1, 2])
             rhs = dyadic(r, maxm=12, int_bias=1)
             op = ['clin', str(ck), tok(rhs)] + lin_tokens(ts)
+            is_logical = True
+        elif kind == 'eqbin' and logical:
+            # var == const on a binary / fixed 0-1 variable: reuse, complement, impossible value, fixed result
+            v = pick(logical)
+            co = r.choice([F(1), F(1), F(2), F(-1), F(1, 2), F(-2)])
+            rhs = co * r.choice([F(0), F(1), F(1), F(0), F(2), F(1, 2)])
+            op = ['clin', '0', tok(rhs), '1', tok(co), v[0]]
+            is_logical = True
+        elif kind == 'cquad' and small and r.chance(1, 12):
+            op = ['cquad', str(r.choice([-2, -1, 0, 0, 0, 1, 2])), tok(dyadic(r, maxm=3)), '0', '0']      # empty body
             is_logical = True
         elif kind == 'cquad' and small:
             ts = lin_terms(small, n=r.rint(0, 2), allow_zero=False)
@@ -500,7 +524,7 @@ def gen_e2e_model(r):
     for _ in range(nv):
         k = r.below(6)
         if k <= 2:
-            lo, hi = r.choice([(0, 5), (0, 4), (-3, 3), (1, 6), (-2, 4)])
+            lo, hi = r.choice([(0, 5), (0, 4), (-3, 3), (1, 6), (-2, 4), (-4, -1), (-5, 0)])
             m.var(lo, hi, True); grids.append([F(v) for v in range(lo, hi + 1)])
         elif k == 3:
             m.var(0, 1, True); grids.append([F(0), F(1)])
@@ -558,6 +582,26 @@ def gen_e2e_model(r):
         m.lcon(e)
     if r.chance(1, 3):
         m.con(None, F(r.rint(2, 8)), lin={}, nl=num(2))
-    if r.chance(1, 2):
+    # nonlinear functions: integer powers anywhere (exact reference semantics); transcendental functions only in the
+    # objective, so that NL feasibility (decided exactly) does not depend on them
+    cfg = {'accept': 'ALL', 'options': []}
+    if r.chance(1, 4):
+        k = r.choice([2, 3, 2, 4, -1, -2])
+        m.lcon((r.choice(['ge', 'le', 'lt', 'gt', 'ne']), ('pow', v(), ('n', F(k))), ('n', F(r.rint(0, 9)))))
+    if r.chance(1, 3):
+        f = r.choice(['exp', 'log', 'sin', 'cos', 'tan', 'atan', 'sinh', 'cosh', 'tanh', 'asinh', 'log10', 'sqrt', 'asin', 'acos',
+                      'acosh', 'atanh', 'cpow'])
+        arg = r.choice([v(), ('+', v(), ('n', F(1))), ('*', ('n', F(1, 2)), v()), ('-', ('n', F(0)), v())])
+        e = ('cpow', ('n', F(r.choice([2, 3]))), arg) if f == 'cpow' else (f, arg)
+        if r.chance(1, 2):
+            e = ('+', e, num(1))
+        m.obj(r.choice(['min', 'max']), lin={}, nl=e)
+        if r.chance(1, 2):
+            cfg['accept'] = 'LinConRange,LinConLE,LinConEQ,LinConGE,PLConstraint' + r.choice(['', ',AbsConstraint,MaxConstraint,MinConstraint'])
+    elif r.chance(1, 2):
         m.obj('min', lin={0: 1}, nl=num(1) if r.chance(1, 2) else None)
+    for o in ('cvt:pre:eqresult=0', 'cvt:pre:eqbinary=0', 'cvt:pre:unnest=0', 'cvt:pre:all=0'):
+        if r.chance(1, 10):
+            cfg['options'].append(o)
+    m.c06cfg = cfg
     return m, grids
